@@ -2,7 +2,7 @@
    any device observes.  Tick-level simulation between the nested model and the inlined one. *)
 From TV Require Import Base Model.Wiring Model.Ticker Model.Component Model.Sim Model.SimTime Model.Inline
   Proofs.WiringP Proofs.TickerP Proofs.ComponentP Proofs.SimP Proofs.FlattenP Proofs.NonInterfP
-  Proofs.LatestP Proofs.ExtentP Proofs.FrameP Proofs.EqvP.
+  Proofs.LatestP Proofs.ExtentP Proofs.FrameP Proofs.AgreeP Proofs.EqvP Proofs.ParDevP Proofs.EqvCongP.
 Open Scope Z_scope.
 
 Section Wires.
@@ -49,11 +49,16 @@ Lemma in_Cf k : In k Cf <-> In k (conns_A cfg c) \/ In k (conns_B cfg c lvc) \/ 
 Proof. unfold Cf. rewrite !in_app_iff. tauto. Qed.
 End Wires.
 
-Definition dv (x : comp) : comp * ckind := (x, KDev).
 
-(* the configurations covered: a top level of devices around one system simulation of devices *)
+(* the kind of a top-level component, read off the configuration *)
+Definition kd_of (cfg : config) (x : comp) : ckind :=
+  match lookup x (l_order (level_of cfg top)) with Some k => k | None => KDev end.
+Definition dk (cfg : config) (x : comp) : comp * ckind := (x, kd_of cfg x).
+
+(* the configurations covered: a top level of devices and system simulations (of any depth) around
+   one system simulation c of devices; the sibling system simulations live in their own subtrees *)
 Record shape (cfg : config) (c : comp) (lvc : positive) (pre inn post : list comp) : Prop := {
-  sh_top : l_order (level_of cfg top) = map dv pre ++ (c, KSys lvc) :: map dv post;
+  sh_top : l_order (level_of cfg top) = map (dk cfg) pre ++ (c, KSys lvc) :: map (dk cfg) post;
   sh_in : l_order (level_of cfg lvc) = map dv inn;
   sh_nodup : NoDup (c :: ext_id :: exp_id :: pre ++ inn ++ post);
   sh_lv : lvc <> top;
@@ -64,6 +69,18 @@ Record shape (cfg : config) (c : comp) (lvc : positive) (pre inn post : list com
   sh_cc : forall u p e q, In (u, p, e, q) (l_conns (level_of cfg lvc)) ->
             In u (ext_id :: inn) /\ In e (exp_id :: inn) /\ ~ (u = ext_id /\ e = exp_id)
 }.
+
+(* the sibling system simulations (top-level components of kind KSys) live in subtrees of their own,
+   apart from the top level, from the level of c and from all the devices named in the shape; fuel g *)
+Definition sib_ok (cfg : config) (g : nat) (c : comp) (lvc : positive) (pre inn post : list comp) : Prop :=
+  forall y ly, In y (pre ++ post) -> kd_of cfg y = KSys ly ->
+    ~ In top (levels_below cfg g ly) /\ ~ In lvc (levels_below cfg g ly) /\
+    (forall z, In z (devices_below cfg g ly) -> ~ In z (pre ++ inn ++ post) /\ z <> c) /\
+    (forall l, In l (levels_below cfg g ly) -> single_source (l_conns (level_of cfg l))).
+
+Lemma sib_ok_devices cfg g c lvc pre inn post :
+  (forall y, In y (pre ++ post) -> kd_of cfg y = KDev) -> sib_ok cfg g c lvc pre inn post.
+Proof. intros H y ly Hy Hk. rewrite (H y Hy) in Hk. discriminate. Qed.
 
 Section Shape.
 Variable cfg : config.
@@ -211,164 +228,6 @@ Proof.
 Qed.
 End Shape.
 
-(* ---------- one device step on both sides *)
-Definition drel (sN sF : sstate) (z : comp) : Prop :=
-  d_last (dcs sN z) = d_last (dcs sF z) /\ eqv (d_inputs (dcs sN z)) (d_inputs (dcs sF z)) /\
-  lookup z (s_n sN) = lookup z (s_n sF) /\
-  NoDup (keys (d_inputs (dcs sN z))) /\ NoDup (keys (d_inputs (dcs sF z))).
-
-Definition pd (a : core) (y : comp) (q : port) : option Z := lookup2r (co_in a) y q.
-
-Lemma pd_get_d a y q : pd a y q = lookup q (get_d y (co_in a)).
-Proof. unfold pd. apply lookup2r_get_d. Qed.
-
-Section ParDev.
-Variable devf : devfun.
-Hypothesis Hdev_nd : forall c n t i, NoDup (keys (fst (devf c n t i))).
-Hypothesis Hdev_ext : forall c n t i i', NoDup (keys i) -> NoDup (keys i') -> eqv i i' -> devf c n t i = devf c n t i'.
-Variable time : Z.
-
-(* what a device step does, in the terms the simulation relation needs *)
-Record dev_effect (lv : positive) (conns : list conn) (a a' : core) (x : comp) (ch : values) (ca : option Z) (inputs : values) : Prop := {
-  de_in : co_in a' = accumulate (co_in a) (route conns x ch);
-  de_out : co_out a' = co_out a;
-  de_obs : co_obs a' = co_obs a ++ [(x, time, inputs)];
-  de_inputs : inputs = merge (d_inputs (dcs (co_s a) x)) (get_d x (co_in a));
-  de_self : d_inputs (dcs (co_s a') x) = inputs;
-  de_other : forall z, z <> x -> dcs (co_s a') z = dcs (co_s a) z;
-  de_cnt_other : forall z, z <> x -> lookup z (s_n (co_s a')) = lookup z (s_n (co_s a));
-  de_wake : wake_of (co_s a') lv = match ca with Some w => upd x w (wake_of (co_s a) lv) | None => wake_of (co_s a) lv end;
-  de_wake_other : forall l, l <> lv -> wake_of (co_s a') l = wake_of (co_s a) l;
-  de_int : s_int (co_s a') = s_int (co_s a);
-  de_ticked : s_ticked (co_s a') = s_ticked (co_s a)
-}.
-
-Lemma step'_dev inner lv conns roots ext a x : x <> ext_id -> x <> exp_id ->
-  let a' := step' devf inner lv conns time roots ext a (x, KDev) in
-  (nonempty (get_d x (co_in a)) || memb x roots = false /\ a' = a) \/
-  (nonempty (get_d x (co_in a)) || memb x roots = true /\
-   exists outs ca, let st := dcs (co_s a) x in
-     let inputs := merge (d_inputs st) (get_d x (co_in a)) in
-     devf x (match lookup x (s_n (co_s a)) with Some k => k | None => 0 end + 1) time inputs = (outs, ca) /\
-     d_last (dcs (co_s a') x) = outs /\
-     lookup x (s_n (co_s a')) = Some (match lookup x (s_n (co_s a)) with Some k => k | None => 0 end + 1) /\
-     dev_effect lv conns a a' x (diff_outputs (d_last st) outs) ca inputs).
-Proof.
-  intros He Hx. cbv zeta. unfold step'. cbn [fst snd].
-  destruct (nonempty (get_d x (co_in a)) || memb x roots); [right; split; [reflexivity|] | left; split; reflexivity].
-  destruct (Pos.eqb_spec x ext_id); [contradiction|]. destruct (Pos.eqb_spec x exp_id); [contradiction|].
-  unfold dev_update. fold (dcs (co_s a) x).
-  destruct (devf x _ time (merge (d_inputs (dcs (co_s a) x)) (get_d x (co_in a)))) as [outs ca] eqn:Ed.
-  exists outs, ca. split; [reflexivity|].
-  assert (Hs : forall s2, s_dc s2 = upd x {| d_inputs := merge (d_inputs (dcs (co_s a) x)) (get_d x (co_in a)); d_last := outs |} (s_dc (co_s a)) ->
-                dcs s2 x = {| d_inputs := merge (d_inputs (dcs (co_s a) x)) (get_d x (co_in a)); d_last := outs |} /\
-                forall z, z <> x -> dcs s2 z = dcs (co_s a) z).
-  { intros s2 E. split; [eapply dcs_upd_same; exact E | intros z Hz; eapply dcs_upd_other; eassumption]. }
-  assert (Hwo : forall (s1 : sstate) w0 l, l <> lv -> wake_of (set_wake s1 lv w0) l = wake_of s1 l).
-  { intros s1 w0 l Hl. unfold wake_of, set_wake. cbn [s_wake]. apply get_d_upd_other. exact Hl. }
-  destruct ca as [w|]; cbn [co_s co_in co_out co_obs].
-  - match goal with |- context [set_wake ?s1 lv ?w0] => destruct (Hs (set_wake s1 lv w0) eq_refl) as [Hs1 Hs2] end.
-    split; [rewrite Hs1; reflexivity|]. split; [cbn [set_wake s_n]; apply lookup_upd_same|].
-    constructor; cbn [co_s co_in co_out co_obs]; first
-      [ reflexivity | rewrite Hs1; reflexivity | exact Hs2 | apply wake_of_set_wake
-      | (intros z Hz; cbn [set_wake s_n]; apply lookup_upd_other; exact Hz)
-      | (intros l Hl; rewrite Hwo by exact Hl; reflexivity) ].
-  - match goal with |- context [d_last (dcs ?s2 x)] => destruct (Hs s2 eq_refl) as [Hs1 Hs2] end.
-    split; [rewrite Hs1; reflexivity|]. split; [cbn [s_n]; apply lookup_upd_same|].
-    constructor; cbn [co_s co_in co_out co_obs]; first
-      [ reflexivity | rewrite Hs1; reflexivity | exact Hs2
-      | (intros z Hz; cbn [s_n]; apply lookup_upd_other; exact Hz)
-      | (intros l Hl; reflexivity) ].
-Qed.
-
-Lemma dev_fold_wake_keys inner lv conns roots ext k : forall l a,
-  (forall x, In x l -> x <> ext_id /\ x <> exp_id) ->
-  lookup k (wake_of (co_s a) lv) <> None ->
-  lookup k (wake_of (co_s (fold_left (step' devf inner lv conns time roots ext) (map dv l) a)) lv) <> None.
-Proof.
-  induction l as [|x r IH]; intros a Hl Hk; [exact Hk|]. cbn [map fold_left]. apply IH; [intros y Hy; apply Hl; right; exact Hy|].
-  destruct (Hl x (or_introl eq_refl)) as [He Hx].
-  destruct (step'_dev inner lv conns roots ext a x He Hx) as [[_ E]|[_ [outs [ca [_ [_ [_ Hde]]]]]]]; unfold dv.
-  - rewrite E. exact Hk.
-  - rewrite (de_wake _ _ _ _ _ _ _ _ Hde). destruct ca as [w|]; [|exact Hk].
-    rewrite lookup_upd. destruct (Pos.eqb k x); [discriminate | exact Hk].
-Qed.
-
-Lemma par_dev innN innF lvN lvF connsN connsF rootsN rootsF extN extF aN aF x :
-  x <> ext_id -> x <> exp_id -> drel (co_s aN) (co_s aF) x ->
-  eqv (get_d x (co_in aN)) (get_d x (co_in aF)) ->
-  NoDup (keys (get_d x (co_in aN))) -> NoDup (keys (get_d x (co_in aF))) ->
-  memb x rootsN = memb x rootsF ->
-  let aN' := step' devf innN lvN connsN time rootsN extN aN (x, KDev) in
-  let aF' := step' devf innF lvF connsF time rootsF extF aF (x, KDev) in
-  (aN' = aN /\ aF' = aF) \/
-  (exists ch ca inputsN inputsF, NoDup (keys ch) /\ eqv inputsN inputsF /\
-     dev_effect lvN connsN aN aN' x ch ca inputsN /\ dev_effect lvF connsF aF aF' x ch ca inputsF /\
-     drel (co_s aN') (co_s aF') x).
-Proof.
-  intros He Hx [Hl [Hi [Hc [HnI HnI']]]] Hin HnN HnF Hr. cbv zeta.
-  destruct (step'_dev innN lvN connsN rootsN extN aN x He Hx) as [[EN HN]|[EN [outs [ca [HdN [HlN [HcN HeN]]]]]]];
-  destruct (step'_dev innF lvF connsF rootsF extF aF x He Hx) as [[EF HF]|[EF [outs' [ca' [HdF [HlF [HcF HeF]]]]]]];
-    rewrite (nonempty_eqv _ _ Hin), Hr in EN; try congruence.
-  - left. split; assumption.
-  - right. cbv zeta in HdN, HdF, HeN, HeF.
-    assert (Hinp : eqv (merge (d_inputs (dcs (co_s aN) x)) (get_d x (co_in aN))) (merge (d_inputs (dcs (co_s aF) x)) (get_d x (co_in aF))))
-      by (apply merge_eqv; assumption).
-    assert (Hndo : NoDup (keys outs)).
-    { match type of HdN with devf ?c0 ?n0 ?t0 ?i0 = _ => pose proof (Hdev_nd c0 n0 t0 i0) as Hq; rewrite HdN in Hq; exact Hq end. }
-    rewrite Hc in HdN. rewrite (Hdev_ext _ _ _ _ _ (NoDup_keys_merge _ _ HnI) (NoDup_keys_merge _ _ HnI') Hinp) in HdN. rewrite HdN in HdF. injection HdF as E1 E2. rewrite <- E1 in HlF, HeF. rewrite <- E2 in HeF.
-    rewrite <- Hl in HeF.
-    exists (diff_outputs (d_last (dcs (co_s aN) x)) outs), ca, (merge (d_inputs (dcs (co_s aN) x)) (get_d x (co_in aN))),
-           (merge (d_inputs (dcs (co_s aF) x)) (get_d x (co_in aF))).
-    split; [apply NoDup_keys_filter; exact Hndo|]. split; [exact Hinp|]. split; [exact HeN|]. split; [exact HeF|].
-    split; [rewrite HlN, HlF; reflexivity|]. split; [rewrite (de_self _ _ _ _ _ _ _ _ HeN), (de_self _ _ _ _ _ _ _ _ HeF); exact Hinp|].
-    split; [rewrite HcN, HcF, Hc; reflexivity|].
-    split; [rewrite (de_self _ _ _ _ _ _ _ _ HeN) | rewrite (de_self _ _ _ _ _ _ _ _ HeF)]; apply NoDup_keys_merge; assumption.
-Qed.
-End ParDev.
-
-(* ---------- routing, at the level of "which value is pending on which port" *)
-Lemma route_lookup_ext connsN connsF x (ch : values) yN qN yF qF :
-  single_source connsN -> single_source connsF -> NoDup (keys ch) ->
-  (forall p, In (x, p, yF, qF) connsF <-> In (x, p, yN, qN) connsN) ->
-  lookup2r (route connsF x ch) yF qF = lookup2r (route connsN x ch) yN qN.
-Proof.
-  intros SN SF Hnd Hw.
-  destruct (lookup2r (route connsF x ch) yF qF) as [v|] eqn:EF.
-  - apply (route_exact connsF x ch yF qF v SF Hnd) in EF. destruct EF as [p [Hl Hk]]. symmetry.
-    apply (route_exact connsN x ch yN qN v SN Hnd). exists p. split; [exact Hl | apply Hw; exact Hk].
-  - destruct (lookup2r (route connsN x ch) yN qN) as [v|] eqn:EN; [|reflexivity]. exfalso.
-    apply (route_exact connsN x ch yN qN v SN Hnd) in EN. destruct EN as [p [Hl Hk]].
-    assert (EF' : lookup2r (route connsF x ch) yF qF = Some v) by (apply (route_exact connsF x ch yF qF v SF Hnd); exists p; split; [exact Hl | apply Hw; exact Hk]).
-    congruence.
-Qed.
-
-Lemma route_lookup_none conns x (ch : values) y q :
-  single_source conns -> NoDup (keys ch) -> (forall p, ~ In (x, p, y, q) conns) -> lookup2r (route conns x ch) y q = None.
-Proof.
-  intros S Hnd Hw. destruct (lookup2r (route conns x ch) y q) as [v|] eqn:E; [|reflexivity]. exfalso.
-  apply (route_exact conns x ch y q v S Hnd) in E. destruct E as [p [_ Hk]]. apply (Hw p Hk).
-Qed.
-
-Lemma pd_after time lv conns a a' x ch ca inputs : dev_effect time lv conns a a' x ch ca inputs ->
-  forall y q, pd a' y q = match lookup2r (route conns x ch) y q with Some v => Some v | None => pd a y q end.
-Proof. intros H y q. unfold pd. rewrite (de_in _ _ _ _ _ _ _ _ _ H). apply accumulate_lookup. apply route_WFd. Qed.
-
-Definition obs_rel (o o' : list obs) : Prop :=
-  Forall2 (fun a b : obs => fst a = fst b /\ eqv (snd a) (snd b)) o o'.
-
-Lemma obs_rel_app o1 o1' o2 o2' : obs_rel o1 o1' -> obs_rel o2 o2' -> obs_rel (o1 ++ o2) (o1' ++ o2').
-Proof. intros H1 H2. apply Forall2_app; assumption. Qed.
-
-Lemma wire_from_dec (conns : list conn) c y q : (forall o, ~ In (c, o, y, q) conns) \/ exists o, In (c, o, y, q) conns.
-Proof.
-  induction conns as [|[[[u p] y2] q2] r IHr]; [left; intros o []|].
-  destruct IHr as [Hn|[o Ho]]; [|right; exists o; right; exact Ho].
-  destruct (Pos.eq_dec u c) as [Eu|Nu]; destruct (Pos.eq_dec y2 y) as [Ey|Ny]; destruct (Pos.eq_dec q2 q) as [Eq|Nq];
-    try (left; intros o [E|Hi]; [inversion E; congruence | apply (Hn o Hi)]).
-  subst. right. exists p. left. reflexivity.
-Qed.
-
 Section Tick.
 Variable cfg : config.
 Variable c : comp.
@@ -379,9 +238,12 @@ Variable devf : devfun.
 Hypothesis Hdev_nd : forall c n t i, NoDup (keys (fst (devf c n t i))).
 Hypothesis Hdev_ext : forall c n t i i', NoDup (keys i) -> NoDup (keys i') -> eqv i i' -> devf c n t i = devf c n t i'.
 Variable time : Z.
+Variable f : nat.            (* the inner functions run with fuel S f *)
+Hypothesis Hsib : sib_ok cfg (S f) c lvc pre inn post.
 Let C1 := l_conns (level_of cfg top).
 Let Cc := l_conns (level_of cfg lvc).
 Let CF := Cf cfg c lvc.
+Let cfgF := inline cfg c lvc.
 
 Definition allc : list comp := pre ++ inn ++ post.
 Definition outs_ : list comp := pre ++ post.
@@ -404,6 +266,18 @@ Definition Rnc (aN : core) : Prop := forall o y q, In (c, o, y, q) C1 -> pd aN y
 Definition Rpre (aN aF : core) : Prop :=
   forall d, In d inn -> forall q' v, pd aF d q' = Some v <-> exists q, In (ext_id, q, d, q') Cc /\ pd aN c q = Some v.
 
+(* the sibling system simulations: their subtrees are in related states *)
+Definition SUB (sN sF : sstate) : Prop :=
+  forall y ly, In y outs_ -> kd_of cfg y = KSys ly ->
+    SR (devices_below cfg (S f) ly) (levels_below cfg (S f) ly) sN sF.
+
+(* the state of the nested schedulers that steps of top-level devices do not touch *)
+Definition frameN (aN aN' : core) : Prop :=
+  wake_of (co_s aN') lvc = wake_of (co_s aN) lvc /\ lookup c (wake_of (co_s aN') top) = lookup c (wake_of (co_s aN) top) /\
+  int_of (co_s aN') lvc = int_of (co_s aN) lvc /\ memb lvc (s_ticked (co_s aN')) = memb lvc (s_ticked (co_s aN)).
+Definition frameF (aF aF' : core) : Prop :=
+  forall d, In d inn -> lookup d (wake_of (co_s aF') top) = lookup d (wake_of (co_s aF) top).
+
 Lemma eqv_of_pd aN aF y : (forall q, pd aF y q = pd aN y q) -> eqv (get_d y (co_in aN)) (get_d y (co_in aF)).
 Proof. intros H q. rewrite <- !pd_get_d. symmetry. apply H. Qed.
 
@@ -414,6 +288,48 @@ Qed.
 Lemma in_inn_all d : In d inn -> In d allc.
 Proof. unfold allc. intros H. apply in_app_iff. right. apply in_app_iff. left. exact H. Qed.
 
+(* what a component of the top level leaves pending, on both sides, when it reports [ch] *)
+Lemma pend_after_step aN aF aN' aF' x ch :
+  In x outs_ -> NoDup (keys ch) -> (forall y, In y outs_ -> forall q, pd aF y q = pd aN y q) ->
+  (forall y q, pd aN' y q = match lookup2r (route C1 x ch) y q with Some v => Some v | None => pd aN y q end) ->
+  (forall y q, pd aF' y q = match lookup2r (route CF x ch) y q with Some v => Some v | None => pd aF y q end) ->
+  (forall y, In y outs_ -> forall q, pd aF' y q = pd aN' y q) /\ (Rpre aN aF -> Rpre aN' aF') /\ (Rnc aN -> Rnc aN').
+Proof.
+  intros Hx Hch Hpend PN PF.
+  destruct (outsider_facts cfg c lvc pre inn post Hsh x Hx) as [Hxi [Hxc [Hxe Hxx]]].
+  pose proof (sh_ss1 _ _ _ _ _ _ Hsh) as S1. fold C1 in S1.
+  pose proof (Cf_single_source cfg c lvc pre inn post Hsh) as SF. fold CF in SF.
+  split; [|split].
+  - intros y Hy q. rewrite PN, PF, (Hpend y Hy q).
+    rewrite (route_lookup_ext C1 CF x ch y q y q S1 SF Hch); [reflexivity|].
+    intros p. apply (wire_AA cfg c lvc pre inn post Hsh x p y q Hx Hy).
+  - intros HP d Hd q' v. rewrite PF. specialize (HP d Hd q' v).
+      destruct (lookup2r (route CF x ch) d q') as [v2|] eqn:ER.
+      * apply (route_exact CF x ch d q' v2 SF Hch) in ER. destruct ER as [p [Hl Hk]].
+        apply (wire_AB cfg c lvc pre inn post Hsh x p d q' Hx Hd) in Hk. destruct Hk as [q0 [Hk1 Hk2]]. fold C1 in Hk1. fold Cc in Hk2.
+        assert (Hrc : lookup2r (route C1 x ch) c q0 = Some v2) by (apply (route_exact C1 x ch c q0 v2 S1 Hch); exists p; split; assumption).
+        split.
+        -- intros E. inversion E; subst v2. exists q0. split; [exact Hk2|]. rewrite PN, Hrc. reflexivity.
+        -- intros [q [Hq Hv]]. pose proof (sh_ssc _ _ _ _ _ _ Hsh) as Sc. fold Cc in Sc.
+           destruct (Sc ext_id q ext_id q0 d q' Hq Hk2) as [_ E]. subst q0. rewrite PN, Hrc in Hv. exact Hv.
+      * split.
+        -- intros Hv. apply HP in Hv. destruct Hv as [q [Hq Hv]]. exists q. split; [exact Hq|]. rewrite PN.
+           destruct (lookup2r (route C1 x ch) c q) as [v3|] eqn:Ec; [|exact Hv]. exfalso.
+           apply (route_exact C1 x ch c q v3 S1 Hch) in Ec. destruct Ec as [p [Hl Hk]].
+           assert (Hkf : In (x, p, d, q') CF) by (apply (wire_AB cfg c lvc pre inn post Hsh x p d q' Hx Hd); exists q; split; assumption).
+           assert (ER' : lookup2r (route CF x ch) d q' = Some v3) by (apply (route_exact CF x ch d q' v3 SF Hch); exists p; split; assumption).
+           congruence.
+        -- intros [q [Hq Hv]]. apply HP. exists q. split; [exact Hq|]. rewrite PN in Hv.
+           destruct (lookup2r (route C1 x ch) c q) as [v3|] eqn:Ec; [|exact Hv]. exfalso.
+           apply (route_exact C1 x ch c q v3 S1 Hch) in Ec. destruct Ec as [p [Hl Hk]].
+           assert (Hkf : In (x, p, d, q') CF) by (apply (wire_AB cfg c lvc pre inn post Hsh x p d q' Hx Hd); exists q; split; assumption).
+           assert (ER' : lookup2r (route CF x ch) d q' = Some v3) by (apply (route_exact CF x ch d q' v3 SF Hch); exists p; split; assumption).
+           congruence.
+  - intros HN o y q Hk. rewrite PN, (HN o y q Hk).
+      rewrite (route_lookup_none C1 x ch y q S1 Hch); [reflexivity|].
+      intros p Hk2. destruct (S1 x p c o y q Hk2 Hk) as [E _]. apply Hxc. exact E.
+Qed.
+
 (* a top-level device is processed on both sides *)
 Lemma out_step innN innF rootsN rootsF aN aF x :
   In x outs_ -> memb x rootsN = memb x rootsF -> Rout aN aF ->
@@ -423,7 +339,8 @@ Lemma out_step innN innF rootsN rootsF aN aF x :
   wake_of (co_s aN') lvc = wake_of (co_s aN) lvc /\
   (forall d, In d inn -> lookup d (wake_of (co_s aF') top) = lookup d (wake_of (co_s aF) top)) /\
   (lookup c (wake_of (co_s aN') top) = lookup c (wake_of (co_s aN) top)) /\
-  s_int (co_s aN') = s_int (co_s aN) /\ s_ticked (co_s aN') = s_ticked (co_s aN).
+  s_int (co_s aN') = s_int (co_s aN) /\ s_ticked (co_s aN') = s_ticked (co_s aN) /\
+  (SUB (co_s aN) (co_s aF) -> SUB (co_s aN') (co_s aF')).
 Proof.
   intros Hx Hr HR. cbv zeta.
   destruct (outsider_facts cfg c lvc pre inn post Hsh x Hx) as [Hxi [Hxc [Hxe Hxx]]].
@@ -432,9 +349,9 @@ Proof.
   destruct (par_dev devf Hdev_nd Hdev_ext time innN innF top top C1 CF rootsN rootsF [] [] aN aF x Hxe Hxx
               (ro_dev _ _ HR x (in_outs_all x Hx)) (eqv_of_pd aN aF x (ro_pend _ _ HR x Hx)) (ro_okN _ _ HR x) (ro_okF _ _ HR x) Hr)
     as [[EN EF]|[ch [ca [iN [iF [Hch [Hieq [HeN [HeF Hdx]]]]]]]]].
-  - rewrite EN, EF. split; [exact HR|]. split; [auto|]. split; [auto|]. split; [reflexivity|]. split; [auto|]. split; [reflexivity|]. split; reflexivity.
+  - rewrite EN, EF. split; [exact HR|]. split; [auto|]. split; [auto|]. split; [reflexivity|]. split; [auto|]. split; [reflexivity|]. split; [reflexivity|]. split; [reflexivity | auto].
   - assert (PN := pd_after time top C1 aN _ x ch ca iN HeN). assert (PF := pd_after time top CF aF _ x ch ca iF HeF).
-    split; [|split; [|split; [|split; [|split; [|split; [|split]]]]]].
+    split; [|split; [|split; [|split; [|split; [|split; [|split; [|split]]]]]]].
     + constructor.
       * intros z Hz. destruct (Pos.eq_dec z x) as [E|Hne]; [subst z; exact Hdx|].
         unfold drel. rewrite (de_other _ _ _ _ _ _ _ _ _ HeN z Hne), (de_other _ _ _ _ _ _ _ _ _ HeF z Hne),
@@ -479,6 +396,116 @@ Proof.
     + rewrite (de_wake _ _ _ _ _ _ _ _ _ HeN). destruct ca as [w|]; [|reflexivity]. apply lookup_upd_other. intros E. apply Hxc. symmetry. exact E.
     + apply (de_int _ _ _ _ _ _ _ _ _ HeN).
     + apply (de_ticked _ _ _ _ _ _ _ _ _ HeN).
+    + intros HS y ly Hy Hk. destruct (HS y ly Hy Hk) as [A B].
+      destruct (Hsib y ly Hy Hk) as [Htop [_ [HD _]]].
+      split.
+      * intros z Hz. assert (Hne : z <> x) by (intros E; subst z; apply (proj1 (HD x Hz)); apply in_outs_all; exact Hx).
+        unfold drel. rewrite (de_other _ _ _ _ _ _ _ _ _ HeN z Hne), (de_other _ _ _ _ _ _ _ _ _ HeF z Hne),
+          (de_cnt_other _ _ _ _ _ _ _ _ _ HeN z Hne), (de_cnt_other _ _ _ _ _ _ _ _ _ HeF z Hne). apply (A z Hz).
+      * intros l Hl. assert (Hne : l <> top) by (intros E; subst l; contradiction).
+        unfold int_of. rewrite (de_wake_other _ _ _ _ _ _ _ _ _ HeN l Hne), (de_wake_other _ _ _ _ _ _ _ _ _ HeF l Hne),
+          (de_int _ _ _ _ _ _ _ _ _ HeN), (de_int _ _ _ _ _ _ _ _ _ HeF), (de_ticked _ _ _ _ _ _ _ _ _ HeN), (de_ticked _ _ _ _ _ _ _ _ _ HeF).
+        apply (B l Hl).
+Qed.
+
+(* ---------- a sibling system simulation is processed on both sides *)
+Lemma same_below_inline : forall g ly, ~ In top (levels_below cfg g ly) -> same_below cfg cfgF g ly.
+Proof.
+  induction g as [|g IH]; intros ly Hn; [exact I|]. cbn [same_below]. split.
+  - unfold cfgF, inline, level_of. rewrite lookup_upd_other; [reflexivity|]. intros E. apply Hn. cbn [levels_below]. left. exact E.
+  - intros x lv' Hi. apply IH. intros H. apply Hn. eapply levels_below_sub; eassumption.
+Qed.
+
+Lemma drel_frame sN sF sN2 sF2 z : drel sN sF z ->
+  lookup z (s_dc sN2) = lookup z (s_dc sN) -> lookup z (s_n sN2) = lookup z (s_n sN) ->
+  lookup z (s_dc sF2) = lookup z (s_dc sF) -> lookup z (s_n sF2) = lookup z (s_n sF) -> drel sN2 sF2 z.
+Proof. intros H A B C D. unfold drel in *. rewrite (dcs_of_lookup sN sN2 z A), (dcs_of_lookup sF sF2 z C), B, D. exact H. Qed.
+
+Lemma SR_set_wake_other D L s s' lv w w' : ~ In lv L -> SR D L s s' -> SR D L (set_wake s lv w) (set_wake s' lv w').
+Proof.
+  intros Hlv [A B]. split; [exact A|]. intros l Hl. destruct (B l Hl) as [X [Y Z]].
+  assert (Hne : l <> lv) by (intros E; subst l; contradiction).
+  rewrite !wake_of_set_wake_other by exact Hne. repeat split; assumption.
+Qed.
+
+Lemma out_step_sys rootsN rootsF aN aF x ly :
+  In x outs_ -> kd_of cfg x = KSys ly -> memb x rootsN = memb x rootsF -> Rout aN aF -> SUB (co_s aN) (co_s aF) ->
+  let aN' := step' devf (on_tick_level cfg devf (S f)) top C1 time rootsN [] aN (x, KSys ly) in
+  let aF' := step' devf (on_tick_level cfgF devf (S f)) top CF time rootsF [] aF (x, KSys ly) in
+  Rout aN' aF' /\ (Rpre aN aF -> Rpre aN' aF') /\ (Rnc aN -> Rnc aN') /\ frameN aN aN' /\ frameF aF aF' /\
+  SUB (co_s aN') (co_s aF').
+Proof.
+  intros Hx Hk Hr HR HS. cbv zeta.
+  destruct (outsider_facts cfg c lvc pre inn post Hsh x Hx) as [Hxi [Hxc [Hxe Hxx]]].
+  pose proof (sh_ss1 _ _ _ _ _ _ Hsh) as S1. fold C1 in S1.
+  pose proof (Cf_single_source cfg c lvc pre inn post Hsh) as SF. fold CF in SF.
+  destruct (Hsib x ly Hx Hk) as [Htop [Hlvc [HD Hssl]]].
+  set (D := devices_below cfg (S f) ly) in *. set (L := levels_below cfg (S f) ly) in *.
+  assert (Hinp : eqv (get_d x (co_in aN)) (get_d x (co_in aF))) by (apply eqv_of_pd; apply (ro_pend _ _ HR x Hx)).
+  unfold step'. cbn [fst snd]. rewrite <- (nonempty_eqv _ _ Hinp), <- Hr.
+  destruct (nonempty (get_d x (co_in aN)) || memb x rootsN).
+  2: { split; [exact HR|]. split; [auto|]. split; [auto|]. split; [repeat split; reflexivity|]. split; [intros d _; reflexivity | exact HS]. }
+  destruct (Pos.eqb_spec x ext_id) as [E|_]; [contradiction|]. destruct (Pos.eqb_spec x exp_id) as [E|_]; [contradiction|].
+  pose proof (same_below_inline (S f) ly Htop) as Hsb.
+  pose proof (on_tick_level_eqv2 cfg devf Hdev_nd Hdev_ext cfgF (S f) ly Hsb Hssl time
+                (get_d x (co_in aN)) (get_d x (co_in aF)) (co_s aN) (co_s aF) (HS x ly Hx Hk) Hinp (ro_okN _ _ HR x) (ro_okF _ _ HR x)) as Hcg.
+  pose proof (on_tick_level_framed cfg devf (S f) ly time (get_d x (co_in aN)) (co_s aN)) as FrN.
+  pose proof (on_tick_level_framed cfgF devf (S f) ly time (get_d x (co_in aF)) (co_s aF)) as FrF.
+  destruct (below_eq cfg cfgF (S f) ly Hsb) as [EL ED]. rewrite EL, ED in FrF. fold D L in FrN, FrF.
+  destruct (on_tick_level cfg devf (S f) ly time (get_d x (co_in aN)) (co_s aN)) as [[[s1 ch] ca] ob].
+  destruct (on_tick_level cfgF devf (S f) ly time (get_d x (co_in aF)) (co_s aF)) as [[[s1' ch'] ca'] ob'].
+  destruct Hcg as [Ech [Nch [Nch' [Eca [Eob Hs1]]]]]. subst ca'.
+  destruct FrN as [FN1 [FN2 FN3]]. destruct FrF as [FF1 [FF2 FF3]].
+  set (s2 := match ca with Some w => set_wake s1 top (upd x w (wake_of s1 top)) | None => s1 end).
+  set (s2' := match ca with Some w => set_wake s1' top (upd x w (wake_of s1' top)) | None => s1' end).
+  assert (EtN : wake_of s1 top = wake_of (co_s aN) top) by (apply (FN2 top Htop)).
+  assert (EtF : wake_of s1' top = wake_of (co_s aF) top) by (apply (FF2 top Htop)).
+  assert (Hw2 : forall l, l <> top -> wake_of s2 l = wake_of s1 l) by (intros l Hl; unfold s2; destruct ca; [apply wake_of_set_wake_other; exact Hl | reflexivity]).
+  assert (Hw2' : forall l, l <> top -> wake_of s2' l = wake_of s1' l) by (intros l Hl; unfold s2'; destruct ca; [apply wake_of_set_wake_other; exact Hl | reflexivity]).
+  assert (Hwt : forall z, lookup z (wake_of s2 top) = if Pos.eqb z x then match ca with Some w => Some w | None => lookup z (wake_of (co_s aN) top) end else lookup z (wake_of (co_s aN) top)).
+  { intros z. unfold s2. destruct ca as [w|]; [rewrite wake_of_set_wake, lookup_upd, EtN; reflexivity | rewrite EtN; destruct (Pos.eqb z x); reflexivity]. }
+  assert (Hwt' : forall z, lookup z (wake_of s2' top) = if Pos.eqb z x then match ca with Some w => Some w | None => lookup z (wake_of (co_s aF) top) end else lookup z (wake_of (co_s aF) top)).
+  { intros z. unfold s2'. destruct ca as [w|]; [rewrite wake_of_set_wake, lookup_upd, EtF; reflexivity | rewrite EtF; destruct (Pos.eqb z x); reflexivity]. }
+  assert (Hdc2 : forall z, lookup z (s_dc s2) = lookup z (s_dc s1) /\ lookup z (s_n s2) = lookup z (s_n s1)) by (intros z; unfold s2; destruct ca; split; reflexivity).
+  assert (Hdc2' : forall z, lookup z (s_dc s2') = lookup z (s_dc s1') /\ lookup z (s_n s2') = lookup z (s_n s1')) by (intros z; unfold s2'; destruct ca; split; reflexivity).
+  assert (Hint2 : s_int s2 = s_int s1 /\ s_ticked s2 = s_ticked s1) by (unfold s2; destruct ca; split; reflexivity).
+  assert (Hint2' : s_int s2' = s_int s1' /\ s_ticked s2' = s_ticked s1') by (unfold s2'; destruct ca; split; reflexivity).
+  set (aN' := {| co_s := s2; co_in := accumulate (co_in aN) (route C1 x ch); co_out := co_out aN; co_obs := co_obs aN ++ ob |}).
+  set (aF' := {| co_s := s2'; co_in := accumulate (co_in aF) (route CF x ch'); co_out := co_out aF; co_obs := co_obs aF ++ ob' |}).
+  assert (PN : forall y q, pd aN' y q = match lookup2r (route C1 x ch) y q with Some v => Some v | None => pd aN y q end)
+    by (intros y q; unfold pd, aN'; cbn [co_in]; apply accumulate_lookup; apply route_WFd).
+  assert (PF : forall y q, pd aF' y q = match lookup2r (route CF x ch) y q with Some v => Some v | None => pd aF y q end).
+  { intros y q. unfold pd, aF'. cbn [co_in]. rewrite accumulate_lookup by apply route_WFd.
+    rewrite (route_eqv CF x ch' ch y q SF Nch' Nch (eqv_sym _ _ Ech)). reflexivity. }
+  destruct (pend_after_step aN aF aN' aF' x ch Hx Nch (ro_pend _ _ HR) PN PF) as [Hpend [Hpre Hnc]].
+  assert (Houtside : forall z, In z allc -> ~ In z D) by (intros z Hz Hd; apply (proj1 (HD z Hd)); exact Hz).
+  split; [|split; [exact Hpre | split; [exact Hnc | split; [|split]]]].
+  - constructor; cbn [aN' aF' co_s co_in co_obs].
+    + intros z Hz. destruct (FN1 z (Houtside z Hz)) as [X1 X2]. destruct (FF1 z (Houtside z Hz)) as [Y1 Y2].
+      apply (drel_frame (co_s aN) (co_s aF) s2 s2' z (ro_dev _ _ HR z Hz)).
+      * rewrite (proj1 (Hdc2 z)). exact X1.
+      * rewrite (proj2 (Hdc2 z)). exact X2.
+      * rewrite (proj1 (Hdc2' z)). exact Y1.
+      * rewrite (proj2 (Hdc2' z)). exact Y2.
+    + exact Hpend.
+    + apply in_ok_accumulate. exact (ro_okN _ _ HR).
+    + apply in_ok_accumulate. exact (ro_okF _ _ HR).
+    + apply obs_rel_app; [exact (ro_obs _ _ HR) | exact Eob].
+    + intros y Hy. rewrite Hwt, Hwt', (ro_wo _ _ HR y Hy). reflexivity.
+  - (* frameN *)
+    unfold frameN. cbn [aN' co_s]. split; [|split; [|split]].
+    + rewrite (Hw2 lvc (sh_lv _ _ _ _ _ _ Hsh)). apply (FN2 lvc Hlvc).
+    + rewrite Hwt. destruct (Pos.eqb_spec c x) as [E|_]; [exfalso; apply Hxc; symmetry; exact E | reflexivity].
+    + unfold int_of. rewrite (proj1 Hint2). apply (FN2 lvc Hlvc).
+    + rewrite (proj2 Hint2). apply (FN2 lvc Hlvc).
+  - (* frameF *)
+    unfold frameF. intros d Hd. cbn [aF' co_s]. rewrite Hwt'. destruct (Pos.eqb_spec d x) as [E|_]; [subst d; contradiction | reflexivity].
+  - (* the siblings *)
+    cbn [aN' aF' co_s]. intros y2 ly2 Hy2 Hk2.
+    destruct (Hsib y2 ly2 Hy2 Hk2) as [Htop2 _].
+    assert (H1 : SR (devices_below cfg (S f) ly2) (levels_below cfg (S f) ly2) s1 s1').
+    { apply (SR_combine _ _ D L (co_s aN) (co_s aF) s1 s1' ob ob' (HS y2 ly2 Hy2 Hk2) Hs1 (conj FN1 (conj FN2 FN3)) (conj FF1 (conj FF2 FF3))). }
+    unfold s2, s2'. destruct ca as [w|]; [apply SR_set_wake_other; assumption | exact H1].
 Qed.
 
 (* ---------- inside the system's tick: the inner fold (C) against the inlined run (F); aNb is the
@@ -541,28 +568,30 @@ Proof.
       rewrite lookup_upd_other; [apply (r2_wo _ _ _ HR y Hy)|]. intros E. subst y. contradiction.
 Qed.
 
-(* the state of the nested schedulers that steps of top-level devices do not touch *)
-Definition frameN (aN aN' : core) : Prop :=
-  wake_of (co_s aN') lvc = wake_of (co_s aN) lvc /\ lookup c (wake_of (co_s aN') top) = lookup c (wake_of (co_s aN) top) /\
-  s_int (co_s aN') = s_int (co_s aN) /\ s_ticked (co_s aN') = s_ticked (co_s aN).
-Definition frameF (aF aF' : core) : Prop :=
-  forall d, In d inn -> lookup d (wake_of (co_s aF') top) = lookup d (wake_of (co_s aF) top).
+Lemma frameN_trans a1 a2 a3 : frameN a1 a2 -> frameN a2 a3 -> frameN a1 a3.
+Proof. intros [A1 [A2 [A3 A4]]] [B1 [B2 [B3 B4]]]. repeat split; congruence. Qed.
 
-Lemma out_fold innN innF rootsN rootsF : forall l aN aF,
-  (forall x, In x l -> In x outs_) -> (forall x, In x l -> memb x rootsN = memb x rootsF) -> Rout aN aF ->
-  let aN' := fold_left (step' devf innN top C1 time rootsN []) (map dv l) aN in
-  let aF' := fold_left (step' devf innF top CF time rootsF []) (map dv l) aF in
-  Rout aN' aF' /\ (Rpre aN aF -> Rpre aN' aF') /\ (Rnc aN -> Rnc aN') /\ frameN aN aN' /\ frameF aF aF'.
+Lemma out_fold rootsN rootsF : forall l aN aF,
+  (forall x, In x l -> In x outs_) -> (forall x, In x l -> memb x rootsN = memb x rootsF) -> Rout aN aF -> SUB (co_s aN) (co_s aF) ->
+  let aN' := fold_left (step' devf (on_tick_level cfg devf (S f)) top C1 time rootsN []) (map (dk cfg) l) aN in
+  let aF' := fold_left (step' devf (on_tick_level cfgF devf (S f)) top CF time rootsF []) (map (dk cfg) l) aF in
+  Rout aN' aF' /\ (Rpre aN aF -> Rpre aN' aF') /\ (Rnc aN -> Rnc aN') /\ frameN aN aN' /\ frameF aF aF' /\ SUB (co_s aN') (co_s aF').
 Proof.
-  induction l as [|x r IH]; intros aN aF Hl Hr HR; cbv zeta; cbn [map fold_left].
-  - split; [exact HR|]. split; [auto|]. split; [auto|]. split; [repeat split; reflexivity | intros d _; reflexivity].
-  - change (dv x) with (x, KDev).
-    destruct (out_step innN innF rootsN rootsF aN aF x (Hl x (or_introl eq_refl)) (Hr x (or_introl eq_refl)) HR)
-      as [HR1 [HP1 [HN1 [F1 [F2 [F3 [F4 F5]]]]]]].
-    destruct (IH _ _ (fun y Hy => Hl y (or_intror Hy)) (fun y Hy => Hr y (or_intror Hy)) HR1) as [HR2 [HP2 [HN2 [[G1 [G2 [G3 G4]]] G5]]]].
-    split; [exact HR2|]. split; [auto|]. split; [auto|]. split.
-    + repeat split; congruence.
-    + intros d Hd. rewrite (G5 d Hd). apply F2. exact Hd.
+  induction l as [|x r IH]; intros aN aF Hl Hr HR HS; cbv zeta; cbn [map fold_left].
+  - split; [exact HR|]. split; [auto|]. split; [auto|]. split; [repeat split; reflexivity|]. split; [intros d _; reflexivity | exact HS].
+  - change (dk cfg x) with (x, kd_of cfg x). destruct (kd_of cfg x) as [|ly] eqn:Ek.
+    + destruct (out_step (on_tick_level cfg devf (S f)) (on_tick_level cfgF devf (S f)) rootsN rootsF aN aF x (Hl x (or_introl eq_refl)) (Hr x (or_introl eq_refl)) HR)
+        as [HR1 [HP1 [HN1 [F1 [F2 [F3 [F4 [F5 F6]]]]]]]].
+      destruct (IH _ _ (fun y Hy => Hl y (or_intror Hy)) (fun y Hy => Hr y (or_intror Hy)) HR1 (F6 HS)) as [HR2 [HP2 [HN2 [G [G5 G6]]]]].
+      split; [exact HR2|]. split; [auto|]. split; [auto|]. split; [|split; [|exact G6]].
+      * eapply frameN_trans; [|exact G]. unfold frameN, int_of. rewrite F1, F3, F4, F5. repeat split; reflexivity.
+      * intros d Hd. rewrite (G5 d Hd). apply F2. exact Hd.
+    + destruct (out_step_sys rootsN rootsF aN aF x ly (Hl x (or_introl eq_refl)) Ek (Hr x (or_introl eq_refl)) HR HS)
+        as [HR1 [HP1 [HN1 [F1 [F2 F6]]]]].
+      destruct (IH _ _ (fun y Hy => Hl y (or_intror Hy)) (fun y Hy => Hr y (or_intror Hy)) HR1 F6) as [HR2 [HP2 [HN2 [G [G5 G6]]]]].
+      split; [exact HR2|]. split; [auto|]. split; [auto|]. split; [|split; [|exact G6]].
+      * eapply frameN_trans; eassumption.
+      * intros d Hd. rewrite (G5 d Hd). apply F2. exact Hd.
 Qed.
 
 Lemma in_fold innC innF rootsC rootsF chg aNb : forall l aC aF,
@@ -598,7 +627,7 @@ Definition rootsC_of (s : sstate) : list comp :=
   int_of s lvc ++ due_of s ++ [ext_id] ++ (if negb (memb lvc (s_ticked s)) then map fst (map dv inn) ++ [exp_id] else []).
 Definition notdue (e : comp * Z) : bool := negb (Z.leb (snd e) time).
 
-Lemma sys_step f innF rootsN rootsF aNb aF :
+Lemma sys_step innF rootsN rootsF aNb aF :
   Rout aNb aF -> Rpre aNb aF -> Rnc aNb ->
   let chg := get_d c (co_in aNb) in
   let ticked := nonempty chg || memb c rootsN in
@@ -767,13 +796,13 @@ Proof.
   destruct (Pos.eqb_spec exp_id ext_id) as [E|_]; [discriminate|]. rewrite Pos.eqb_refl. split; reflexivity.
 Qed.
 
-Lemma inline_top_order : l_order (level_of (inline cfg c lvc) top) = map dv pre ++ map dv inn ++ map dv post.
+Lemma inline_top_order : l_order (level_of (inline cfg c lvc) top) = map (dk cfg) pre ++ map dv inn ++ map (dk cfg) post.
 Proof.
   unfold level_of, inline. rewrite lookup_upd_same. cbn [l_order]. unfold inline_order, top_level, in_level.
   rewrite (sh_top _ _ _ _ _ _ Hsh), (sh_in _ _ _ _ _ _ Hsh).
   destruct nd_facts with (1 := Hsh) as [Hc_all _].
-  assert (Hdev : forall l, ~ In c l -> flat_map (fun ck : comp * ckind => if Pos.eqb (fst ck) c then map dv inn else [ck]) (map dv l) = map dv l).
-  { induction l as [|x r IH]; intros Hn; [reflexivity|]. cbn [map flat_map fst dv].
+  assert (Hdev : forall l, ~ In c l -> flat_map (fun ck : comp * ckind => if Pos.eqb (fst ck) c then map dv inn else [ck]) (map (dk cfg) l) = map (dk cfg) l).
+  { induction l as [|x r IH]; intros Hn; [reflexivity|]. cbn [map flat_map]. unfold dk at 1. cbn [fst].
     destruct (Pos.eqb_spec x c) as [E|_]; [exfalso; apply Hn; left; exact E|]. cbn [app]. f_equal. apply IH. intros Hi. apply Hn. right. exact Hi. }
   rewrite flat_map_app. cbn [flat_map fst]. rewrite Pos.eqb_refl.
   rewrite !Hdev; [reflexivity | |]; intros Hi; apply Hc_all; apply in_app_iff; [right; apply in_app_iff; right; exact Hi | left; exact Hi].
@@ -782,8 +811,75 @@ Qed.
 Lemma inline_top_conns : l_conns (level_of (inline cfg c lvc) top) = CF.
 Proof. unfold level_of, inline. rewrite lookup_upd_same. reflexivity. Qed.
 
+(* ---------- what the system's own step and the inlined devices leave untouched *)
+Definition frm (D : list comp) (Ls : list positive) (s s2 : sstate) : Prop :=
+  (forall z, ~ In z D -> dcs s2 z = dcs s z /\ lookup z (s_n s2) = lookup z (s_n s)) /\
+  (forall l, ~ In l Ls -> wake_of s2 l = wake_of s l /\ int_of s2 l = int_of s l /\ memb l (s_ticked s2) = memb l (s_ticked s)).
+
+Lemma frm_refl D Ls s : frm D Ls s s.
+Proof. split; intros; repeat split; reflexivity. Qed.
+
+Lemma frm_trans D Ls s1 s2 s3 : frm D Ls s1 s2 -> frm D Ls s2 s3 -> frm D Ls s1 s3.
+Proof.
+  intros [A1 B1] [A2 B2]. split.
+  - intros z Hz. destruct (A1 z Hz) as [X1 Y1]. destruct (A2 z Hz) as [X2 Y2]. split; congruence.
+  - intros l Hl. destruct (B1 l Hl) as [X1 [Y1 Z1]]. destruct (B2 l Hl) as [X2 [Y2 Z2]]. repeat split; congruence.
+Qed.
+
+Lemma SR_frm D L s s' D1 L1 D2 L2 s2 s2' :
+  SR D L s s' -> frm D1 L1 s s2 -> frm D2 L2 s' s2' ->
+  (forall z, In z D -> ~ In z D1 /\ ~ In z D2) -> (forall l, In l L -> ~ In l L1 /\ ~ In l L2) -> SR D L s2 s2'.
+Proof.
+  intros [A B] [F1 G1] [F2 G2] HD HL. split.
+  - intros z Hz. destruct (HD z Hz) as [N1 N2]. destruct (F1 z N1) as [X1 Y1]. destruct (F2 z N2) as [X2 Y2].
+    specialize (A z Hz). unfold drel in *. rewrite X1, X2, Y1, Y2. exact A.
+  - intros l Hl. destruct (HL l Hl) as [N1 N2]. destruct (G1 l N1) as [X1 [Y1 Z1]]. destruct (G2 l N2) as [X2 [Y2 Z2]].
+    destruct (B l Hl) as [P [Q R]]. repeat split; congruence.
+Qed.
+
+Lemma flat_map_single (l : list comp) : flat_map (fun ck : comp * ckind => match snd ck with KDev => [fst ck] | KSys _ => [] end) (map dv l) = l.
+Proof. induction l as [|x r IH]; [reflexivity|]. cbn [map flat_map dv snd fst app]. rewrite IH. reflexivity. Qed.
+
+(* the system's step in the nested run touches its inner devices, its own level and its top-level wakeup only *)
+Lemma sys_frmN rootsN aNb :
+  frm inn [lvc; top] (co_s aNb) (co_s (step' devf (on_tick_level cfg devf (S f)) top C1 time rootsN [] aNb (c, KSys lvc))).
+Proof.
+  unfold step'. cbn [fst snd]. destruct (nonempty _ || _); [|apply frm_refl].
+  destruct (Pos.eqb c ext_id); [apply frm_refl|]. destruct (Pos.eqb c exp_id); [apply frm_refl|].
+  pose proof (on_tick_level_framed cfg devf (S f) lvc time (get_d c (co_in aNb)) (co_s aNb)) as Fr.
+  destruct (on_tick_level cfg devf (S f) lvc time (get_d c (co_in aNb)) (co_s aNb)) as [[[s1 ch] ca] ob].
+  destruct Fr as [F1 [F2 _]]. cbn [co_s].
+  assert (HD : forall z, ~ In z inn -> ~ In z (devices_below cfg (S f) lvc)).
+  { intros z Hz Hi. apply Hz. cbn [devices_below] in Hi. rewrite (sh_in _ _ _ _ _ _ Hsh) in Hi.
+    apply in_flat_map in Hi. destruct Hi as [[d k] [Hd Hi]]. apply in_map_iff in Hd. destruct Hd as [d0 [E Hd]]. inversion E; subst. cbn in Hi. destruct Hi as [E2|[]]. subst. exact Hd. }
+  assert (HL : forall l, ~ In l [lvc; top] -> ~ In l (levels_below cfg (S f) lvc)).
+  { intros l Hl Hi. apply Hl. cbn [levels_below] in Hi. rewrite (sh_in _ _ _ _ _ _ Hsh) in Hi. destruct Hi as [E|Hi]; [left; exact E|].
+    apply in_flat_map in Hi. destruct Hi as [[d k] [Hd Hi]]. apply in_map_iff in Hd. destruct Hd as [d0 [E Hd]]. inversion E; subst. destruct Hi. }
+  split.
+  - intros z Hz. destruct (F1 z (HD z Hz)) as [X Y]. destruct ca; cbn; (split; [apply dcs_of_lookup; exact X | exact Y]).
+  - intros l Hl. destruct (F2 l (HL l Hl)) as [X [Y Z]].
+    assert (Hne : l <> top) by (intros E; apply Hl; right; left; symmetry; exact E).
+    destruct ca as [w|]; [|repeat split; assumption]. rewrite wake_of_set_wake_other by exact Hne. repeat split; assumption.
+Qed.
+
+(* the inlined devices in the flat run touch themselves and the top-level wakeups only *)
+Lemma inn_frmF innF rootsF : forall l aF, (forall d, In d l -> In d inn) ->
+  frm inn [top] (co_s aF) (co_s (fold_left (step' devf innF top CF time rootsF []) (map dv l) aF)).
+Proof.
+  induction l as [|d r IH]; intros aF Hl; [apply frm_refl|]. cbn [map fold_left].
+  eapply frm_trans; [|apply IH; intros x Hx; apply Hl; right; exact Hx].
+  destruct (inner_not_outsider cfg c lvc pre inn post Hsh d (Hl d (or_introl eq_refl))) as [_ [_ [Hde Hdx]]].
+  destruct (step'_dev devf time innF top CF rootsF [] aF d Hde Hdx) as [[_ E]|[_ [outs [ca [_ [_ [_ He]]]]]]]; unfold dv.
+  - rewrite E. apply frm_refl.
+  - split.
+    + intros z Hz. assert (Hne : z <> d) by (intros E; subst z; apply Hz; apply Hl; left; reflexivity).
+      split; [apply (de_other _ _ _ _ _ _ _ _ _ He z Hne) | apply (de_cnt_other _ _ _ _ _ _ _ _ _ He z Hne)].
+    + intros l0 Hl0. assert (Hne : l0 <> top) by (intros E; apply Hl0; left; symmetry; exact E).
+      unfold int_of. rewrite (de_wake_other _ _ _ _ _ _ _ _ _ He l0 Hne), (de_int _ _ _ _ _ _ _ _ _ He), (de_ticked _ _ _ _ _ _ _ _ _ He). repeat split; reflexivity.
+Qed.
+
 (* what relates the two simulations between ticks and what a tick needs to know about its roots *)
-Theorem tick_inline f rootsN rootsF sN sF :
+Theorem tick_inline rootsN rootsF sN sF :
   (forall z, In z allc -> drel sN sF z) ->
   (forall y, In y outs_ -> lookup y (wake_of sN top) = lookup y (wake_of sF top)) ->
   (forall y, In y outs_ -> memb y rootsN = memb y rootsF) ->
@@ -791,26 +887,29 @@ Theorem tick_inline f rootsN rootsF sN sF :
   (memb c rootsN = false -> forall d, In d inn -> memb d rootsF = false) ->
   (forall d, In d inn -> lookup d (filter notdue (wake_of sN lvc)) = lookup d (wake_of sF top)) ->
   (memb c rootsN = false -> filter notdue (wake_of sN lvc) = wake_of sN lvc) ->
+  SUB sN sF ->
   let '(sN', _, obN) := tick_with cfg devf (on_tick_level cfg devf (S f)) top time rootsN [] sN in
   let '(sF', _, obF) := tick_with (inline cfg c lvc) devf (on_tick_level (inline cfg c lvc) devf (S f)) top time rootsF [] sF in
   (forall z, In z allc -> drel sN' sF' z) /\ obs_rel obN obF /\
   (forall y, In y outs_ -> lookup y (wake_of sN' top) = lookup y (wake_of sF' top)) /\
   (forall d, In d inn -> lookup d (wake_of sN' lvc) = lookup d (wake_of sF' top)) /\
+  SUB sN' sF' /\
   exists ticked : bool,
     lookup c (wake_of sN' top) =
       (if ticked then match min_wake (wake_of sN' lvc) with Some w => Some w | None => lookup c (wake_of sN top) end
        else lookup c (wake_of sN top)) /\
     (ticked = true -> memb lvc (s_ticked sN') = true) /\
-    (ticked = false -> wake_of sN' lvc = wake_of sN lvc /\ s_ticked sN' = s_ticked sN /\ int_of sN' lvc = int_of sN lvc) /\
+    (ticked = false -> wake_of sN' lvc = wake_of sN lvc /\ memb lvc (s_ticked sN') = memb lvc (s_ticked sN) /\ int_of sN' lvc = int_of sN lvc) /\
     (memb c rootsN = true -> ticked = true) /\
     int_of sN' lvc = (if ticked then [] else int_of sN lvc) /\
     (ticked = true -> forall k, lookup k (filter notdue (wake_of sN lvc)) <> None -> lookup k (wake_of sN' lvc) <> None).
 Proof.
-  intros Hdr Hwo Hro Hri Hidle Hwi Hnodue.
+  intros Hdr Hwo Hro Hri Hidle Hwi Hnodue HS0.
   rewrite !tick_with_core. unfold all_of. rewrite inline_top_order, inline_top_conns. fold C1.
   rewrite (sh_top _ _ _ _ _ _ Hsh). cbn [fold_left]. rewrite !ext_step_id.
   rewrite !fold_left_app. cbn [fold_left].
-  set (innN := on_tick_level cfg devf (S f)). set (innF := on_tick_level (inline cfg c lvc) devf (S f)).
+  fold cfgF.
+  set (innN := on_tick_level cfg devf (S f)). set (innF := on_tick_level cfgF devf (S f)).
   set (a0N := {| co_s := sN; co_in := []; co_out := []; co_obs := [] |}).
   set (a0F := {| co_s := sF; co_in := []; co_out := []; co_obs := [] |}).
   assert (HR0 : Rout a0N a0F).
@@ -824,33 +923,44 @@ Proof.
   assert (HN0 : Rnc a0N) by (intros o y q _; reflexivity).
   assert (Hpre_in : forall x, In x pre -> In x outs_) by (intros x Hx; apply in_app_iff; left; exact Hx).
   assert (Hpost_in : forall x, In x post -> In x outs_) by (intros x Hx; apply in_app_iff; right; exact Hx).
-  destruct (out_fold innN innF rootsN rootsF pre a0N a0F Hpre_in (fun x Hx => Hro x (Hpre_in x Hx)) HR0) as [HR1 [HP1 [HN1 [[G1 [G2 [G3 G4]]] G5]]]].
-  set (a1N := fold_left (step' devf innN top C1 time rootsN []) (map dv pre) a0N) in *.
-  set (a1F := fold_left (step' devf innF top CF time rootsF []) (map dv pre) a0F) in *.
+  destruct (out_fold rootsN rootsF pre a0N a0F Hpre_in (fun x Hx => Hro x (Hpre_in x Hx)) HR0 HS0) as [HR1 [HP1 [HN1 [[G1 [G2 [G3 G4]]] [G5 HS1]]]]].
+  fold innN innF in HR1, HP1, HN1, G1, G2, G3, G4, G5, HS1.
+  set (a1N := fold_left (step' devf innN top C1 time rootsN []) (map (dk cfg) pre) a0N) in *.
+  set (a1F := fold_left (step' devf innF top CF time rootsF []) (map (dk cfg) pre) a0F) in *.
   cbn [a0N co_s] in G1, G2, G3, G4. cbn [a0F co_s] in G5.
-  assert (Erc : rootsC_of (co_s a1N) = rootsC_of sN) by (unfold rootsC_of, due_of, int_of; rewrite G1, G3, G4; reflexivity).
+  assert (Erc : rootsC_of (co_s a1N) = rootsC_of sN) by (unfold rootsC_of, due_of; rewrite G1, G3, G4; reflexivity).
   set (tk := nonempty (get_d c (co_in a1N)) || memb c rootsN).
-  destruct (sys_step f innF rootsN rootsF a1N a1F HR1 (HP1 HP0) (HN1 HN0)) as [HR2 [HWI [HC [HT1 [HT0 [HI HKP]]]]]].
+  destruct (sys_step innF rootsN rootsF a1N a1F HR1 (HP1 HP0) (HN1 HN0)) as [HR2 [HWI [HC [HT1 [HT0 [HI HKP]]]]]].
   - intros _ d Hd. rewrite Erc. apply (Hri d Hd).
   - fold tk. intros Et d Hd. apply orb_false_iff in Et. apply (Hidle (proj2 Et) d Hd).
   - fold tk. intros d Hd. rewrite G1, (G5 d Hd). destruct tk eqn:Et; [apply (Hwi d Hd)|].
     apply orb_false_iff in Et. rewrite <- (Hnodue (proj2 Et)). apply (Hwi d Hd).
   - fold tk in HC, HT1, HT0, HI, HKP. fold innN in HR2, HWI, HC, HT1, HT0, HI, HKP.
+    (* the siblings are not touched by the system's step / by the inlined devices *)
+    pose proof (sys_frmN rootsN a1N) as FrN. fold innN in FrN.
+    pose proof (inn_frmF innF rootsF inn a1F (fun d H => H)) as FrF.
     set (a2N := step' devf innN top C1 time rootsN [] a1N (c, KSys lvc)) in *.
     set (a2F := fold_left (step' devf innF top CF time rootsF []) (map dv inn) a1F) in *.
-    destruct (out_fold innN innF rootsN rootsF post a2N a2F Hpost_in (fun x Hx => Hro x (Hpost_in x Hx)) HR2) as [HR3 [_ [_ [[K1 [K2 [K3 K4]]] K5]]]].
-    set (a3N := fold_left (step' devf innN top C1 time rootsN []) (map dv post) a2N) in *.
-    set (a3F := fold_left (step' devf innF top CF time rootsF []) (map dv post) a2F) in *.
+    assert (HS2 : SUB (co_s a2N) (co_s a2F)).
+    { intros y ly Hy Hk. destruct (Hsib y ly Hy Hk) as [Htop [Hlvc [HD _]]].
+      apply (SR_frm _ _ (co_s a1N) (co_s a1F) inn [lvc; top] inn [top] _ _ (HS1 y ly Hy Hk) FrN FrF).
+      - intros z Hz. assert (Hn : ~ In z inn) by (intros Hi; apply (proj1 (HD z Hz)); apply in_inn_all; exact Hi). split; exact Hn.
+      - intros l Hl. split; [intros [E|[E|[]]]; subst l; contradiction | intros [E|[]]; subst l; contradiction]. }
+    destruct (out_fold rootsN rootsF post a2N a2F Hpost_in (fun x Hx => Hro x (Hpost_in x Hx)) HR2 HS2) as [HR3 [_ [_ [[K1 [K2 [K3 K4]]] [K5 HS3]]]]].
+    fold innN innF in HR3, K1, K2, K3, K4, K5, HS3.
+    set (a3N := fold_left (step' devf innN top C1 time rootsN []) (map (dk cfg) post) a2N) in *.
+    set (a3F := fold_left (step' devf innF top CF time rootsF []) (map (dk cfg) post) a2F) in *.
     destruct (exp_step_same innN top C1 rootsN [] a3N) as [EsN EoN]. destruct (exp_step_same innF top CF rootsF [] a3F) as [EsF EoF].
     rewrite EsN, EoN, EsF, EoF.
     split; [exact (ro_dev _ _ HR3)|]. split; [exact (ro_obs _ _ HR3)|]. split; [exact (ro_wo _ _ HR3)|].
     split; [intros d Hd; rewrite K1, (K5 d Hd); apply (HWI d Hd)|].
+    split; [exact HS3|].
     exists tk. split; [|split; [|split; [|split; [|split]]]].
     + rewrite K2, HC, K1, G2. reflexivity.
     + intros Et. rewrite K4. apply HT1. exact Et.
-    + intros Et. rewrite K1, K4. unfold int_of. rewrite K3. rewrite (HT0 Et). split; [exact G1 | split; [exact G4 | unfold int_of in *; rewrite G3; reflexivity]].
+    + intros Et. rewrite K1, K4, K3. rewrite (HT0 Et). split; [exact G1 | split; [exact G4 | exact G3]].
     + intros Hc. unfold tk. rewrite Hc. apply orb_true_r.
-    + unfold int_of in *. rewrite K3. rewrite HI. destruct tk; [reflexivity | rewrite G3; reflexivity].
+    + rewrite K3. rewrite HI. destruct tk; [reflexivity | exact G3].
     + intros Et k Hk. rewrite K1. apply (HKP Et). rewrite G1. exact Hk.
 Qed.
 End Tick.
